@@ -228,7 +228,7 @@ impl<'c, 'ch: 'c> Records<'c, 'ch> {
             .ok_or_else(|| missing_data_series_encoding_error(DataSeries::Names))?
             .decode(&mut self.core_data_reader, &mut self.external_data_readers)
             .map(|buf| match &buf[..] {
-                MISSING => None,
+                MISSING | b"*" => None,
                 _ => Some(buf),
             })
     }
